@@ -24,10 +24,11 @@ def make_copy(dst):
         shutil.rmtree(dst)
     os.makedirs(dst)
     subprocess.check_call(
-        ["rsync", "-a", "--exclude", "/target", "--exclude", "/.git", "/repo/", dst + "/"]
+        ["rsync", "-a", "--exclude", "/target", "--exclude", "/.git", (REPO_SNAP or "/repo") + "/", dst + "/"]
     )
 
 
+REPO_SNAP = None   # copy of /repo taken when a selftest starts, so that committing a fix to /repo meanwhile is harmless
 SNAP = None   # snapshot of check + rules taken when a selftest starts, so that editing /verif meanwhile is harmless
 
 
@@ -41,6 +42,13 @@ def take_snapshot(base):
     shutil.copy(os.path.join(VERIF, "check"), os.path.join(snap, "check"))
     shutil.copy(os.path.join(VERIF, "known_findings.txt"), os.path.join(snap, "known_findings.txt"))
     SNAP = snap
+    global REPO_SNAP
+    rs = os.path.join(base, "verif-reposnap-%d" % os.getpid())
+    if os.path.exists(rs):
+        shutil.rmtree(rs)
+    os.makedirs(rs)
+    subprocess.check_call(["rsync", "-a", "--exclude", "/target", "--exclude", "/.git", "/repo/", rs + "/"])
+    REPO_SNAP = rs
     return snap
 
 
@@ -201,6 +209,8 @@ def selftest(repo, only):
                 print("\n".join(lines), flush=True)
     finally:
         shutil.rmtree(snap, ignore_errors=True)
+        if REPO_SNAP:
+            shutil.rmtree(REPO_SNAP, ignore_errors=True)
         for i in range(jobs):
             shutil.rmtree(os.path.join(os.environ.get("VERIF_SCRATCH_BASE", "/var/tmp"), "verif-selftest-%d-%d" % (os.getpid(), i)), ignore_errors=True)
     print("selftest: %d spec(s), %d problem(s)" % (len(specs), bad))
